@@ -396,3 +396,119 @@ func TestC19_Search(t *testing.T) {
 		rec.Case(raised, map[string]any{"db": gen.BriefDB(cmds, 4), "query": q, "dim": dim, "embeddings": nEmb, "without": rankStr(base), "with": rankStr(wr)}, labels...)
 	})
 }
+
+// TestC19_LoadHistory: what Database.LoadEmbeddings attaches depends on the asset files that
+// exist NOW, not on what an earlier load in the same process found.
+func TestC19_LoadHistory(t *testing.T) {
+	rec := stat.For("C19")
+	rec.Rule("(D) histories in a scratch working directory: write / overwrite / remove glove.bin and cmd_embeddings.bin (valid, truncated, wrong dimension, missing rows, raw bytes, empty) in ./ or ./assets/, interleaved with LoadEmbeddings on freshly loaded databases. Oracle: no error ever; embeddings are attached iff the glove file found now (./ before ./assets/) loads with the file loader; the number of command embeddings is what loading the present files directly gives; without an attached index the search answers exactly as before any load. Non-trivial = a load that finds no usable files after an earlier load that did.")
+	log.SetOutput(io.Discard)
+	home, _ := os.Getwd()
+	defer os.Chdir(home)
+	rapid.Check(t, func(t *rapid.T) {
+		dir := mkdirWork("c19h-")
+		defer os.RemoveAll(dir)
+		os.Mkdir(filepath.Join(dir, "assets"), 0o755)
+		if err := os.Chdir(dir); err != nil {
+			t.Fatalf("harness: %v", err)
+		}
+		defer os.Chdir(home)
+		cmds, _ := gen.DB(t, gen.CmdOpts{}, []int{0, 0, 2, 6, 0})
+		path := gen.WriteDB(t, cmds)
+		defer os.Remove(path)
+		q, _ := gen.Query(t, cmds, []gen.QueryClass{"vocab", "vocab", "nlp"})
+		opt := database.SearchOptions{Limit: len(cmds) + 1, UseNLP: true, AllPlatforms: true}
+		base0, err := database.LoadDatabase(path)
+		if err != nil {
+			t.Fatalf("harness: %v", err)
+		}
+		base := rank(base0, base0.SearchUniversal(q, opt))
+		everAttached, afterLoss := false, false
+		var steps []string
+		safe := func(f c19File) bool { return f.Kind != "huge-count" && f.Kind != "long-word" }
+		find := func(name string) string {
+			for _, p := range []string{name, filepath.Join("assets", name)} {
+				if _, err := os.Stat(p); err == nil {
+					return p
+				}
+			}
+			return ""
+		}
+		t.Repeat(map[string]func(*rapid.T){
+			"write-glove": func(t *rapid.T) {
+				f := c19Glove(t)
+				if !safe(f) {
+					t.Skip("kind reserved for the child-process check")
+				}
+				p := rapid.SampledFrom([]string{"glove.bin", "assets/glove.bin"}).Draw(t, "where")
+				os.WriteFile(p, f.Bytes, 0o644)
+				steps = append(steps, "write "+p+" ("+f.Kind+")")
+			},
+			"write-cmd": func(t *rapid.T) {
+				f := c19Cmd(t)
+				if !safe(f) {
+					t.Skip("kind reserved for the child-process check")
+				}
+				p := rapid.SampledFrom([]string{"cmd_embeddings.bin", "assets/cmd_embeddings.bin"}).Draw(t, "where")
+				os.WriteFile(p, f.Bytes, 0o644)
+				steps = append(steps, "write "+p+" ("+f.Kind+")")
+			},
+			"remove": func(t *rapid.T) {
+				p := rapid.SampledFrom([]string{"glove.bin", "assets/glove.bin", "cmd_embeddings.bin", "assets/cmd_embeddings.bin"}).Draw(t, "which")
+				os.Remove(p)
+				steps = append(steps, "remove "+p)
+			},
+			"remove-all": func(t *rapid.T) {
+				for _, p := range []string{"glove.bin", "assets/glove.bin", "cmd_embeddings.bin", "assets/cmd_embeddings.bin"} {
+					os.Remove(p)
+				}
+				steps = append(steps, "remove all")
+			},
+			"load": func(t *rapid.T) {
+				db, err := database.LoadDatabase(path)
+				if err != nil {
+					t.Fatalf("harness: %v", err)
+				}
+				if err := db.LoadEmbeddings(); err != nil {
+					t.Fatalf("LoadEmbeddings returned an error (%v): embeddings are optional; steps=%v", err, steps)
+				}
+				wantAttached, wantCmds := false, 0
+				if gp := find("glove.bin"); gp != "" {
+					if idx, err := embedding.LoadWordVectors(gp); err == nil && idx != nil {
+						wantAttached = true
+						if cp := find("cmd_embeddings.bin"); cp != "" {
+							if idx.LoadCommandEmbeddings(cp) == nil {
+								wantCmds = idx.NumCommands()
+							}
+						}
+					}
+				}
+				steps = append(steps, fmt.Sprintf("load -> attached=%v", db.HasEmbeddings()))
+				if db.HasEmbeddings() != wantAttached {
+					t.Fatalf("LoadEmbeddings attached=%v, but the files present now say %v; steps=%v", db.HasEmbeddings(), wantAttached, steps)
+				}
+				if wantAttached {
+					if got := len(db.SemanticScores(make([]float32, 100))); got != wantCmds {
+						t.Fatalf("%d command embeddings attached, the files present now hold %d; steps=%v", got, wantCmds, steps)
+					}
+					everAttached = true
+				} else {
+					if got := rank(db, db.SearchUniversal(q, opt)); !rankEq(got, base) {
+						t.Fatalf("no usable embedding files, yet the search differs from the plain one:\n plain %s\n now   %s\n steps=%v", rankStr(base), rankStr(got), steps)
+					}
+					if everAttached {
+						afterLoss = true
+					}
+				}
+			},
+		})
+		labels := []string{"load-history"}
+		if afterLoss {
+			labels = append(labels, "load-after-files-lost")
+		}
+		if len(steps) > 30 {
+			steps = append(steps[:30], "...")
+		}
+		rec.Case(afterLoss, map[string]any{"load_history": true, "steps": steps}, labels...)
+	})
+}
